@@ -241,15 +241,16 @@ func segURL(in c06in, multi bool, media, repID string, nr int64, t uint64) strin
 
 // endMS: the instant the MPD is generated for - the stop time once it has passed.
 // coqWiden: the first-and-last-segment widening of the period range as the model takes it:
-// None = the tree does not widen, (Some atoMS) = it does, with round(1000*ato) of a finite positive offset.
-func coqWiden(atoMS int64) string {
+// None = the tree does not widen, (Some (atoMS, loopMS)) = it does, with round(1000*ato) of a finite positive
+// offset and asset.LoopDurMS (the bounds of the widening).
+func coqWiden(atoMS, loopMS int64) string {
 	if !widenDetected {
 		return "None"
 	}
 	if atoMS < 0 {
 		atoMS = 0
 	}
-	return fmt.Sprintf("(Some %d)", atoMS)
+	return fmt.Sprintf("(Some (%d, %d))", atoMS, loopMS)
 }
 
 func endMS(in c06in) int64 {
@@ -801,7 +802,7 @@ func (lr *liveRun) live(id int, in c06in, a *lib.TLAsset, inQuantifier bool) (st
 	if snr < 0 {
 		snr = 0
 	}
-	term := fmt.Sprintf("CLive %d %s %s %s %d %s %s %d %d %d %s %d\n  [%s]\n  %d %s %s", id, lib.Cbool(numGuardDetected), coqWiden(in.AtoMS), lib.Zs(in.PPH), segMS, coqMode(in.Mode), lib.Cbool(in.Cont), in.StartS, snr, in.NowMS, stop, tsbdMS,
+	term := fmt.Sprintf("CLive %d %s %s %s %d %s %s %d %d %d %s %d\n  [%s]\n  %d %s %s", id, lib.Cbool(numGuardDetected), coqWiden(in.AtoMS, a.LoopMS), lib.Zs(in.PPH), segMS, coqMode(in.Mode), lib.Cbool(in.Cont), in.StartS, snr, in.NowMS, stop, tsbdMS,
 		strings.Join(ases, "; "), status, periods, pub)
 	return term, true
 }
@@ -1433,7 +1434,7 @@ func run(c *lib.Ctx) error {
 		if si.StartNr != nil {
 			snr = *si.StartNr
 		}
-		terms = append(terms, fmt.Sprintf("CSplit %d %s %s %s %d %s %s %s %s %s %s\n  [%s]\n  %d %s", id, lib.Cbool(numGuardDetected), coqWiden(0), pph, si.SegDurMS, coqMode(si.Mode), lib.Cbool(si.Cont),
+		terms = append(terms, fmt.Sprintf("CSplit %d %s %s %s %d %s %s %s %s %s %s\n  [%s]\n  %d %s", id, lib.Cbool(numGuardDetected), coqWiden(0, 0), pph, si.SegDurMS, coqMode(si.Mode), lib.Cbool(si.Cont),
 			lib.Zs(int64(si.StartTimeS)*1000), lib.Zs(int64(snr)), lib.Zs(int64(si.StartTimeMS)), lib.Zs(int64(si.NowMS)),
 			strings.Join(ases, "; "), st, ps))
 		id++
